@@ -169,7 +169,8 @@ Proof. destruct t as [h bs]. unfold class_list. simpl. apply classes_sync. Qed.
 
 (* header relation: everything a search, an index function or the identity snapshot reads *)
 Definition SameView (h' h : hdr) : Prop :=
-  uid h' = uid h /\ name h' = name h /\ parent h' = parent h /\ owner h' = owner h /\ classes (attrs h') = classes (attrs h)
+  uid h' = uid h /\ name h' = name h /\ parent h' = parent h /\ owner h' = owner h /\ children h' = children h /\ text h' = text h
+  /\ classes (attrs h') = classes (attrs h)
   /\ (forall n, snd (getAttribute n (attrs h')) = snd (getAttribute n (attrs h))) /\ (KeysOK (attrs h) -> KeysOK (attrs h')).
 Lemma SameView_refl h : SameView h h.
 Proof. repeat split; auto. Qed.
@@ -179,16 +180,16 @@ Proof.
 Qed.
 Lemma index_tag_view c t' t i : SameView (hd_ t') (hd_ t) -> index_tag c t' i = index_tag c t i.
 Proof.
-  intros (Hu & Hn & _ & _ & Hc & Ha & _). unfold index_tag, attr_of, class_list, tuid. rewrite Hu, Hn, Hc, !Ha.
+  intros (Hu & Hn & _ & _ & _ & _ & Hc & Ha & _). unfold index_tag, attr_of, class_list, tuid. rewrite Hu, Hn, Hc, !Ha.
   f_equal. apply map_ext. intros kv. now rewrite Ha.
 Qed.
 Lemma index_all_view c els' els : Forall2 (fun x' x => SameView (hd_ x') (hd_ x)) els' els -> forall i, index_all c els' i = index_all c els i.
 Proof. unfold index_all. induction 1 as [|x' x l' l Hx Hl IH]; intros i; simpl; auto. rewrite (index_tag_view c x' x i Hx). apply IH. Qed.
 Lemma ident_view els' els : Forall2 (fun x' x => SameView (hd_ x') (hd_ x)) els' els -> map ident els' = map ident els.
-Proof. induction 1 as [|x' x l' l (Hu & Hn & Hp & Ho & _) Hl IH]; simpl; auto. unfold ident at 1 3. unfold tuid. now rewrite Hu, Hn, Hp, Ho, IH. Qed.
+Proof. induction 1 as [|x' x l' l (Hu & Hn & Hp & Ho & Hch & Htx & _) Hl IH]; simpl; auto. unfold ident at 1 3. unfold tuid. now rewrite Hu, Hn, Hp, Ho, Hch, Htx, IH. Qed.
 Lemma good_view els' els : Forall2 (fun x' x => SameView (hd_ x') (hd_ x)) els' els ->
   Forall (fun x => KeysOK (attrs (hd_ x))) els -> Forall (fun x => KeysOK (attrs (hd_ x))) els'.
-Proof. induction 1 as [|x' x l' l Hx Hl IH]; intros H; constructor; inversion H; subst; auto. destruct Hx as (_ & _ & _ & _ & _ & _ & Hk). auto. Qed.
+Proof. induction 1 as [|x' x l' l Hx Hl IH]; intros H; constructor; inversion H; subst; auto. destruct Hx as (_ & _ & _ & _ & _ & _ & _ & _ & Hk). auto. Qed.
 
 (* ---------- 3. one observer, then any sequence ---------- *)
 Section OneSync.
